@@ -186,6 +186,40 @@ def only_empty_namespaces_dropped(a, b, steps):
         return False
 
 
+def sparse_class_fixed_point(ctx, rng):
+    """a sparse configuration (defaults=False: only what the user gave) holding a class spec stays a fixed point of
+    defaults=False parsing, also after an unrelated parse failed while class defaults were being added"""
+    from jsonargparse import ArgumentParser
+
+    from vf.fixtures import zoo
+
+    p = ArgumentParser(exit_on_error=False)
+    p.add_argument("--enc", type=zoo.Base)
+    p.add_argument("--n", type=int, default=1)
+    cls, given = rng.choice([("SubA", {"b": "w"}), ("SubB", {"c": 0.25}), ("SubList", {"items": [1]}), ("SubA", {"a": 7}), ("Base", {})])
+    how = rng.choice(["object", "argv", "string"])
+    spec = {"class_path": f"vf.fixtures.zoo.{cls}", "init_args": given}
+    if not given:
+        del spec["init_args"]  # an empty mapping is the known finding C10-empty-namespace-branch-dropped-on-reparse
+    if how == "object":
+        o = call(p.parse_object, {"enc": copy.deepcopy(spec)}, defaults=False)
+    elif how == "argv":
+        o = call(p.parse_args, [f"--enc={json.dumps(spec)}"], defaults=False)
+    else:
+        o = call(p.parse_string, json.dumps({"enc": spec}), defaults=False)
+    if not o.accepted:
+        ctx.violation("fixedpoint", f"sparse-class-spec-rejected/{how}", dict(spec=spec, outcome=o.brief()))
+        return
+    C = o.value
+    call(p.parse_args, ["--enc=vf.fixtures.zoo.BadDefault"])
+    ctx.count("mon.sparse_class_spec_after_failed_parse")
+    ctx.evaluation(("sparse", cls, how))
+    o2 = call(p.parse_object, copy.deepcopy(C), defaults=False)
+    d = same_steps(C, o2.value) if o2.accepted else ((), o2.brief())
+    if d:
+        ctx.violation("fixedpoint", "parse_object-changes-own-result/sparse-class-spec/after-failed-parse", dict(how=how, config=short(C, 500), reparsed=short(o2.value, 500) if o2.accepted else o2.brief(), at=steps_str(d[0]) if o2.accepted else None))
+
+
 def prefix_named_class_spec(rng, spec):
     """class-typed options whose names are string prefixes of each other (model, model_ema, model_ema2), each with a default
     that carries init_args: a class change on one of them has to discard exactly that option's stale init_args"""
@@ -232,7 +266,20 @@ def case(ctx, i, rng):
         ctx.count("ev.failing_parse_in_add_sub_defaults_before_case")
     otherdir = os.path.join(ctx.workdir, "elsewhere")
     os.makedirs(otherdir, exist_ok=True)
-    for channel, o in sources(rng, spec, p, ctx.workdir, i):
+    if i % 7 == 2:
+        sparse_class_fixed_point(ctx, rng)
+    results = list(sources(rng, spec, p, ctx.workdir, i))
+    if i % 7 == 2:
+        # the same failing parse, this time between producing the results and judging them
+        from jsonargparse import ArgumentParser as _AP
+
+        from vf.fixtures import zoo as _zoo
+
+        q = _AP(exit_on_error=False)
+        q.add_argument("--m", type=_zoo.Base)
+        call(q.parse_args, ["--m=vf.fixtures.zoo.BadDefault"])
+        ctx.count("ev.failing_parse_in_add_sub_defaults_between_parse_and_reparse")
+    for channel, o in results:
         ctx.count(f"ev.{channel}.{'accepted' if o.accepted else 'rejected'}")
         if not o.accepted:
             continue
